@@ -82,6 +82,26 @@ Definition transact_named (S : schema) (d : dbstate) (l : list nop) : list resul
       else (rs ++ map (fun _ => RNull) (drop k l), None)
   end.
 
+(** a "transact" request as the server receives it (server/server.go Transact): an operation that cannot be decoded
+    ([None]) fails where it stands. The operations before it are executed; the checks made at the end of a transaction
+    do not apply to one that stops at an operation, so only the results of the operations themselves are kept; the
+    syntax error follows when none of them failed; nothing is committed. *)
+Fixpoint decoded_prefix (args : list (option nop)) : list nop :=
+  match args with
+  | Some o :: r => o :: decoded_prefix r
+  | _ => []
+  end.
+
+Definition failed_result (r : result) : bool := match r with RErr _ | RNull => true | _ => false end.
+
+Definition server_transact (S : schema) (d : dbstate) (args : list (option nop)) : list result * option dbstate :=
+  let pre := decoded_prefix args in
+  if Nat.eqb (length pre) (length args) then transact_named S d pre
+  else
+    let rs := take (length pre) (fst (transact_named S d pre)) in
+    let rs := if existsb failed_result rs then rs else rs ++ [RErr EOther] in
+    (rs ++ replicate (length args - length rs) RNull, None).
+
 (** the client API's Create: the insert generated for a model carries the model's own identity and nothing else - its
     _uuid field as "uuid" when it is a well-formed uuid, as "uuid-name" when it is a well-formed name, neither otherwise *)
 Definition create_ids (m : sym * bool * bool) : sym * sym :=
